@@ -9,6 +9,7 @@ package main
 
 import (
 	"bytes"
+	"encoding/json"
 	"fmt"
 	"go/types"
 	"os"
@@ -27,6 +28,86 @@ type InstInfo struct {
 	schemas []string
 	skipped []string
 	funcs   int
+	// schema facts from /repo's own compile package: package base name -> normalised struct name -> fields
+	structs  map[string]map[string][]schemaField
+	kinds    map[string]map[string]string
+	presence int
+}
+
+type schemaField struct {
+	ID       int    `json:"id"`
+	Name     string `json:"name"`
+	Required bool   `json:"required"`
+	Code     int    `json:"code"`
+	Default  bool   `json:"default"`
+}
+
+type schemaStruct struct {
+	Name   string        `json:"name"`
+	GoName string        `json:"goname"`
+	Kind   string        `json:"kind"`
+	Fields []schemaField `json:"fields"`
+}
+
+const schemaDumpSrc = `package main
+
+// Dumps the schema facts the instance contracts are derived from, using the
+// repository's own compile package (never the generator's templates).
+
+import (
+	"encoding/json"
+	"os"
+	"path/filepath"
+	"strings"
+
+	"go.uber.org/thriftrw/ast"
+	"go.uber.org/thriftrw/compile"
+)
+
+type field struct {
+	ID       int    ` + "`json:\"id\"`" + `
+	Name     string ` + "`json:\"name\"`" + `
+	Required bool   ` + "`json:\"required\"`" + `
+	Code     int    ` + "`json:\"code\"`" + `
+	Default  bool   ` + "`json:\"default\"`" + `
+}
+type strct struct {
+	Name   string  ` + "`json:\"name\"`" + `
+	GoName string  ` + "`json:\"goname\"`" + `
+	Kind   string  ` + "`json:\"kind\"`" + `
+	Fields []field ` + "`json:\"fields\"`" + `
+}
+
+func main() {
+	out := map[string][]strct{}
+	for _, f := range os.Args[1:] {
+		m, err := compile.Compile(f)
+		if err != nil {
+			continue
+		}
+		base := strings.TrimSuffix(filepath.Base(f), ".thrift")
+		for _, t := range m.Types {
+			s, ok := t.(*compile.StructSpec)
+			if !ok {
+				continue
+			}
+			st := strct{Name: s.Name, GoName: s.Annotations["go.name"]}
+			st.Kind = "struct"
+			if s.Type == ast.UnionType {
+				st.Kind = "union"
+			}
+			for _, fl := range s.Fields {
+				st.Fields = append(st.Fields, field{ID: int(fl.ID), Name: fl.Name, Required: fl.Required, Code: int(fl.Type.TypeCode()), Default: fl.Default != nil})
+			}
+			out[base] = append(out[base], st)
+		}
+	}
+	json.NewEncoder(os.Stdout).Encode(out)
+}
+`
+
+func normName(s string) string {
+	return strings.ToLower(strings.ReplaceAll(s, "_", ""))
 }
 
 func (ii *InstInfo) cleanup() {
@@ -116,6 +197,37 @@ func prepareInst(repo, verif, tier string) (*InstInfo, error) {
 		return fail("the regenerated corpus does not build: %v\n%s", err, trimOut(out))
 	}
 	ii.pkgs = []string{"./gen/..."}
+	// schema facts
+	ii.structs = map[string]map[string][]schemaField{}
+	ii.kinds = map[string]map[string]string{}
+	os.MkdirAll(filepath.Join(ii.dir, "cmd", "schemadump"), 0o755)
+	os.WriteFile(filepath.Join(ii.dir, "cmd", "schemadump", "main.go"), []byte(schemaDumpSrc), 0o644)
+	var targs []string
+	for _, b := range ii.schemas {
+		targs = append(targs, filepath.Join(corpus, b))
+	}
+	if out, err := runIn(ii.dir, "go", append([]string{"run", "./cmd/schemadump"}, targs...)...); err == nil {
+		var dump map[string][]schemaStruct
+		if json.Unmarshal([]byte(out), &dump) == nil {
+			for base, sts := range dump {
+				pk := strings.ReplaceAll(base, "-", "_")
+				if ii.structs[pk] == nil {
+					ii.structs[pk] = map[string][]schemaField{}
+					ii.kinds[pk] = map[string]string{}
+				}
+				for _, st := range sts {
+					n := st.GoName
+					if n == "" {
+						n = st.Name
+					}
+					ii.structs[pk][normName(n)] = st.Fields
+					ii.kinds[pk][normName(n)] = st.Kind
+				}
+			}
+		}
+	} else {
+		ii.skipped = append(ii.skipped, "schema dump failed (presence obligations not generated): "+trimOut(out))
+	}
 	return ii, nil
 }
 
@@ -204,11 +316,21 @@ func (ii *InstInfo) addContracts(p *Program, cs *ContractSet, prop string) error
 		}
 	}
 	cs.Macros["unfoldFields"] = &Macro{Kind: "axiom", Params: []string{"a", "p"}, Body: "fieldsEnd(a, p) == ite(a[p] == 0, p + 1, fieldsEnd(a, skipEnd(a, a[p], p + 3)))"}
+	cs.Macros["unfoldHas"] = &Macro{Kind: "axiom", Params: []string{"a", "p", "id", "ty"}, Body: "hasField(a, p, id, ty) <==> (a[p] != 0 && ((a[p] == ty && be16at(a, p + 1) == id) || hasField(a, skipEnd(a, a[p], p + 3), id, ty)))"}
 	cs.Macros["unfoldList"] = &Macro{Kind: "axiom", Params: []string{"a", "t", "k", "q"}, Body: "listEnd(a, t, k, q) == ite(k <= 0, q, listEnd(a, t, k - 1, skipEnd(a, t, q)))"}
 	cs.Macros["unfoldMap"] = &Macro{Kind: "axiom", Params: []string{"a", "kt", "vt", "k", "q"}, Body: "mapEnd(a, kt, vt, k, q) == ite(k <= 0, q, mapEnd(a, kt, vt, k - 1, skipEnd(a, vt, skipEnd(a, kt, q))))"}
 	var fns []*ssa.Function
 	for f := range p.allFns {
 		pk := fnPkg(f)
+		// one-line address-of helpers (ptr.Bool, _X_ptr) are executed in place
+		if pk != nil && len(f.Blocks) == 1 && f.Signature.Results().Len() == 1 && (pk.Path() == "go.uber.org/thriftrw/ptr" || (strings.HasPrefix(pk.Path(), "example.com/corpus/") && strings.HasSuffix(f.Name(), "_ptr"))) {
+			if _, have := cs.ByFunc[f.String()]; !have {
+				ic := newContract(f, prop)
+				ic.Inline = true
+				ic.Props = nil
+				cs.ByFunc[f.String()] = ic
+			}
+		}
 		if pk == nil || !strings.HasPrefix(pk.Path(), "example.com/corpus/") {
 			continue
 		}
@@ -247,10 +369,14 @@ func (ii *InstInfo) addContracts(p *Program, cs *ContractSet, prop string) error
 			ct.Uses = append(ct.Uses, cl("use", "", "unfoldFields(rin(sr), rpos(sr))"))
 			ct.LoopInv[1] = []*Clause{
 				cl("invariant", "", "rpos(sr) >= p0 && rpos(sr) <= 4611686018427387904"),
-				cl("invariant", "hdr", "ok ==> rpos(sr) >= p0 + 3 && rin(sr)[rpos(sr) - 3] != 0 && fh.Type == int8(rin(sr)[rpos(sr) - 3]) && fieldsEnd(rin(sr), rpos(sr) - 3) == fieldsEnd(rin(sr), p0)"),
+				cl("invariant", "hdrpos", "ok ==> rpos(sr) >= p0 + 3 && rin(sr)[rpos(sr) - 3] != 0"),
+				cl("invariant", "hdrtype", "ok ==> fh.Type == int8(rin(sr)[rpos(sr) - 3])"),
+				cl("invariant", "hdrid", "ok ==> fh.ID == int16(be16at(rin(sr), rpos(sr) - 2))"),
+				cl("invariant", "hdrend", "ok ==> fieldsEnd(rin(sr), rpos(sr) - 3) == fieldsEnd(rin(sr), p0)"),
 				cl("invariant", "stop", "!ok ==> rpos(sr) == fieldsEnd(rin(sr), p0)"),
 			}
 			ct.LoopUse[1] = []*Clause{cl("use", "", "unfoldFields(rin(sr), rpos(sr) - 3)"), cl("use", "", "unfoldFields(rin(sr), rpos(sr) - 1)")}
+			ii.addPresence(f, ct)
 		case "ReadListBegin", "ReadSetBegin":
 			h := "lh"
 			if first == "ReadSetBegin" {
@@ -295,6 +421,82 @@ func (ii *InstInfo) addContracts(p *Program, cs *ContractSet, prop string) error
 		return fmt.Errorf("no decoder found in the regenerated corpus")
 	}
 	return nil
+}
+
+// addPresence (G2, one direction): success implies that every required field
+// without default occurred with its id and declared wire type. The required
+// fields come from the compiled schema; the decoder's <name>IsSet locals are
+// located by name.
+func (ii *InstInfo) addPresence(f *ssa.Function, ct *Contract) {
+	recv := f.Signature.Recv()
+	if recv == nil {
+		return
+	}
+	pt, ok := recv.Type().(*types.Pointer)
+	if !ok {
+		return
+	}
+	named, ok := pt.Elem().(*types.Named)
+	if !ok {
+		return
+	}
+	pkgBase := filepath.Base(named.Obj().Pkg().Path())
+	fields, ok := ii.structs[pkgBase][normName(named.Obj().Name())]
+	if !ok {
+		return
+	}
+	// union arity and declared defaults, over the Go struct's fields (declaration order)
+	if stt, ok := named.Underlying().(*types.Struct); ok && stt.NumFields() == len(fields) {
+		recvName := f.Params[0].Name()
+		if ii.kinds[pkgBase][normName(named.Obj().Name())] == "union" && len(fields) > 0 {
+			var terms []string
+			for i := range fields {
+				terms = append(terms, fmt.Sprintf("ite(%s.%s != nil, 1, 0)", recvName, stt.Field(i).Name()))
+			}
+			ct.Ensures = append(ct.Ensures, cl("ensures", "arity", "err == nil ==> "+strings.Join(terms, " + ")+" == 1"))
+			ii.presence++
+		}
+		for i, fl := range fields {
+			if !fl.Default {
+				continue
+			}
+			switch stt.Field(i).Type().Underlying().(type) {
+			case *types.Pointer, *types.Slice, *types.Map:
+				ct.Ensures = append(ct.Ensures, cl("ensures", "default_"+fl.Name, fmt.Sprintf("err == nil ==> %s.%s != nil", recvName, stt.Field(i).Name())))
+				ii.presence++
+			}
+		}
+	}
+	locals := map[string]bool{}
+	for _, b := range f.Blocks {
+		for _, in := range b.Instrs {
+			if a, ok := in.(*ssa.Alloc); ok && strings.HasSuffix(a.Comment, "IsSet") {
+				locals[a.Comment] = true
+			}
+		}
+	}
+	for _, fl := range fields {
+		if !fl.Required {
+			continue
+		}
+		v := fl.Name + "IsSet"
+		if !locals[v] {
+			// the schema says required but the decoder keeps no presence flag:
+			// state the obligation anyway so that it fails
+			ct.Ensures = append(ct.Ensures, cl("ensures", "required_"+fl.Name, fmt.Sprintf("err == nil ==> hasField(rin(sr), p0, %d, %d)", fl.ID, fl.Code)))
+			ct.Uses = append(ct.Uses, cl("use", "", fmt.Sprintf("unfoldHas(rin(sr), rpos(sr), %d, %d)", fl.ID, fl.Code)))
+			ii.presence++
+			continue
+		}
+		ct.Uses = append(ct.Uses, cl("use", "", fmt.Sprintf("unfoldHas(rin(sr), rpos(sr), %d, %d)", fl.ID, fl.Code)))
+		ct.LoopInv[1] = append(ct.LoopInv[1], cl("invariant", "seen_"+fl.Name,
+			fmt.Sprintf("hasField(rin(sr), p0, %d, %d) <==> (%s || (ok && hasField(rin(sr), rpos(sr) - 3, %d, %d)))", fl.ID, fl.Code, v, fl.ID, fl.Code)))
+		ct.LoopUse[1] = append(ct.LoopUse[1],
+			cl("use", "", fmt.Sprintf("unfoldHas(rin(sr), rpos(sr) - 3, %d, %d)", fl.ID, fl.Code)),
+			cl("use", "", fmt.Sprintf("unfoldHas(rin(sr), rpos(sr) - 1, %d, %d)", fl.ID, fl.Code)))
+		ct.Ensures = append(ct.Ensures, cl("ensures", "required_"+fl.Name, fmt.Sprintf("err == nil ==> hasField(rin(sr), p0, %d, %d)", fl.ID, fl.Code)))
+		ii.presence++
+	}
 }
 
 func firstStreamCall(f *ssa.Function) string {
